@@ -324,6 +324,8 @@ class BuiltinModelLoaderGen(ModelLoaderGen):
                     has_skipped_params = True
                     continue
                 if self._is_packed_field(field):
+                    # it is passed via **packed_fields, so the following parameters cannot keep their positions
+                    has_skipped_params = True
                     continue
 
                 value = state.v_field(field)
